@@ -22,23 +22,24 @@ var lowerResetScopes = []resetScope{
 
 var writerResetScopes = map[string][]resetScope{
 	"msl": {
-		{Name: "msl.Writer/writeFunction", TypePkg: "msl/internal/codegen", TypeName: "Writer", Entry: "msl/internal/codegen.Writer.writeFunction", Outer: []string{"msl/internal/codegen.Compile"}},
-		{Name: "msl.Writer/writeEntryPoint", TypePkg: "msl/internal/codegen", TypeName: "Writer", Entry: "msl/internal/codegen.Writer.writeEntryPoint", Outer: []string{"msl/internal/codegen.Compile"},
+		{Name: "msl.Writer/function", TypePkg: "msl/internal/codegen", TypeName: "Writer",
+			Entries: []string{"msl/internal/codegen.Writer.writeFunction", "msl/internal/codegen.Writer.writeEntryPoint"}, Outer: []string{"msl/internal/codegen.Compile"}, OnlyKeyedBy: "ExpressionHandle",
 			Exception: map[string]string{
 				"entryPointOutputType":       "only read while entryPointOutputTypeActive is true; that flag is reset in the prologue and set together with this field",
 				"entryPointOutputStructName": "only read while entryPointOutputTypeActive is true; that flag is reset in the prologue and set together with this field",
 			}},
 	},
 	"glsl": {
-		{Name: "glsl.Writer/writeFunction", TypePkg: "glsl/internal/codegen", TypeName: "Writer", Entry: "glsl/internal/codegen.Writer.writeFunction", Outer: []string{"glsl/internal/codegen.Compile"}},
-		{Name: "glsl.Writer/writeEntryPoint", TypePkg: "glsl/internal/codegen", TypeName: "Writer", Entry: "glsl/internal/codegen.Writer.writeEntryPoint", Outer: []string{"glsl/internal/codegen.Compile"}},
+		{Name: "glsl.Writer/function", TypePkg: "glsl/internal/codegen", TypeName: "Writer",
+			Entries: []string{"glsl/internal/codegen.Writer.writeFunction", "glsl/internal/codegen.Writer.writeEntryPoint"}, Outer: []string{"glsl/internal/codegen.Compile"}, OnlyKeyedBy: "ExpressionHandle"},
 	},
 	"hlsl": {
-		{Name: "hlsl.Writer/writeFunction", TypePkg: "hlsl/internal/codegen", TypeName: "Writer", Entry: "hlsl/internal/codegen.Writer.writeFunction", Outer: []string{"hlsl/internal/codegen.Compile"},
+		{Name: "hlsl.Writer/function", TypePkg: "hlsl/internal/codegen", TypeName: "Writer",
+			Entries: []string{"hlsl/internal/codegen.Writer.writeFunction", "hlsl/internal/codegen.Writer.writeEntryPointWithIO"}, Outer: []string{"hlsl/internal/codegen.Compile"}, OnlyKeyedBy: "ExpressionHandle",
 			Exception: map[string]string{
+				"tempAccessChain":             "scratch buffer: fillAccessChain re-slices it to [:0] before every use and callers that nest save/restore it",
 				"externalTextureFuncArgNames": "module-level table keyed by (function handle, argument index); entries of earlier functions are read while writing their callers",
 			}},
-		{Name: "hlsl.Writer/writeEntryPointWithIO", TypePkg: "hlsl/internal/codegen", TypeName: "Writer", Entry: "hlsl/internal/codegen.Writer.writeEntryPointWithIO", Outer: []string{"hlsl/internal/codegen.Compile"}},
 	},
 }
 
